@@ -3,6 +3,9 @@ import json
 import os
 import re
 
+import guards
+import rule_scopes
+
 from mirlib import AnchorMissing, path_matches
 from helpers import aggregates, enum_switches, vexpr
 import codec
@@ -171,8 +174,13 @@ def r_reply_errors_are_values(r, prog):
     r.floor(3)
 
 
+
+def r_decoder_preconditions(r, prog):
+    guards.evaluate(r, prog, rule_scopes.guards_codec_decode, 'guards_codec_decode.json', 100)
+
 def run(ctx):
     prog = ctx.prog
+    ctx.run_rule('C11.6', 'T13', 'conditions under which the decoders read, reserve, refuse and return (precondition ledger)', r_decoder_preconditions, prog)
     ctx.run_rule('C11.1a', 'T7', 'panic-site ledger over slice-codec', r_codec_panic_ledger, prog)
     ctx.run_rule('C11.1b', 'T5', 'every error variant has a non-panicking rendering arm', r_error_rendering, prog)
     ctx.run_rule('C11.2', 'T2', 'unsafe-site table: every unsafe operation is dominated by the matching check of the same size', codec.r_unsafe_sites, prog)
